@@ -225,12 +225,20 @@ func formatCells(lines []formatLine) {
 // "before" can be TokenNil, if the subject token is at the start of a sequence.
 // looksLikeExponent returns true if the given token is an identifier that the
 // scanner would take for the exponent part of a number literal if it followed
-// the fractional dot of a number directly, like "e5" or "E10".
+// the fractional dot of a number directly, like "e5", "E10" or "e-5".
 func looksLikeExponent(tok *Token) bool {
 	if tok.Type != hclsyntax.TokenIdent || len(tok.Bytes) < 2 {
 		return false
 	}
-	return (tok.Bytes[0] == 'e' || tok.Bytes[0] == 'E') && tok.Bytes[1] >= '0' && tok.Bytes[1] <= '9'
+	if tok.Bytes[0] != 'e' && tok.Bytes[0] != 'E' {
+		return false
+	}
+	// The exponent may carry a sign; of the two only "-" can be part of a name.
+	rest := tok.Bytes[1:]
+	if rest[0] == '-' {
+		rest = rest[1:]
+	}
+	return len(rest) > 0 && rest[0] >= '0' && rest[0] <= '9'
 }
 
 func spaceAfterToken(subject, before, after *Token) bool {
